@@ -43,6 +43,8 @@ func main() {
 	bf := fs.Uint("bf", 0, "fix branch factor")
 	nk := fs.Int("nk", 0, "fix key universe")
 	profile := fs.String("profile", "general", "operation mix")
+	budget := fs.Int("budget", 600, "executions spent on exhaustive schedule enumeration")
+	scen := fs.Int("scen", 6, "number of small scenarios whose schedules are enumerated")
 	big := fs.Int("big", 0, "every big-th case uses a large tree (0 = never)")
 	fs.Parse(os.Args[2:])
 	_ = in
@@ -69,6 +71,10 @@ func main() {
 		for i := 0; i < *n; i++ {
 			cursorCase(i+1, *seed*1000003+int64(i), enc)
 		}
+	case "flush":
+		enc, done := openOut(*out)
+		defer done()
+		flushFamily(*seed, *n, enc, *budget, *scen)
 	default:
 		fmt.Fprintln(os.Stderr, "unknown family "+fam)
 		os.Exit(2)
